@@ -74,6 +74,15 @@ def _margin(goal, se):
     return 1.0 if not v else -1.0
 
 
+def _has_transcendental(terms):
+    for n in T.subterms(terms):
+        if isinstance(n, SR) and ((n.op == 'fn' and n.extra in ('sin', 'cos', 'tan', 'arccos', 'arcsin')) or n.op == 'fn2'):
+            return True
+        if isinstance(n, SR) and n.op == 'v' and n.extra == 'pi':
+            return True
+    return False
+
+
 REFUTE_MARGIN = 1e-7
 
 
@@ -190,6 +199,11 @@ def discharge(ob, alg, live, budget, tier):
                                 witness_exact={k: str(v) for k, v in info.items()}, detail='exact counter-model')
             except (EvalUndefined, ZeroDivisionError, TypeError, ValueError):
                 pass
+            if not _has_transcendental(list(hyps) + [goal]):
+                # linear/polynomial arithmetic with sqrt/abs/floor definitions and uninterpreted functions: the
+                # exported problem is exactly the obligation, so the solver's `sat` is a genuine counter-model
+                return done('refuted', 'z3-model(exact theory: no transcendental atoms)',
+                            witness={k: float(v) for k, v in info.items()}, detail='counter-model of the exported problem')
             env = {k: float(v) for k, v in info.items()}
             try:
                 se = SampleEval(env)
